@@ -20,7 +20,7 @@ ASSUMPTIONS = [
     "so an edit to _uscan.re alone is invisible to every build)",
     "a clean ASan/UBSan run means no report on the scans performed, not memory safety",
 ]
-REQUIRED = {"tiling_checks": 1000, "ebad_gaps_seen": 1, "nul_stops_seen": 1, "compat_tiling_checks": 1000,
+REQUIRED = {"tiling_checks": 1000, "ebad_gaps_seen": 1, "nul_stops_seen": 1, "compat_tiling_checks": 1000, "uniq_tiling_checks": 10000,
             "long_token_inputs": 10}
 
 EBAD = ""
@@ -32,6 +32,8 @@ LEX = [
     "<!--x-->", "<!--", "-->", "<", ">", "/", "\x7fUNIQ-abc-1-0f-QINU\x7f", "\x7f", "UNIQ-",
     EBAD, "\x00", "a", "Z9", "é", "\U0001d518", "-", "+", ".", "\r",
 ]
+UNIQ_LEX = ['<foo title="', '<video ', '<b class="', '">', '/>', '>', '<nowiki>a b</nowiki>', '<math>x</math>', "<pre>p</pre>",
+            ' ', 'x', '"', '</foo>', '<ref name="', "'", "<ref>r</ref>", "\n", "[[", "]]", "|"]
 assert len(LEX) == len(set(LEX))
 RULE = RULE % len(LEX)
 
@@ -77,6 +79,7 @@ def plan(tier, seed):
     per = 1500 if tier == "quick" else 40000
     shards += [{"kind": "random", "shard": i, "count": per, "seed": seed} for i in range(nr)]
     shards += [{"kind": "long", "shard": 0, "seed": seed}]
+    shards += [{"kind": "uniq", "shard": i, "n": 8, "depth": 4 if tier == "quick" else 5, "seed": seed} for i in range(8)]
     if tier == "thorough":
         shards += [{"kind": "enum", "shard": i, "n": n, "depth": 3, "seed": seed, "san": True}
                    for i in range(n)]
@@ -166,6 +169,31 @@ def run_shard(desc, R):
                 for text in (body, "x\n" + body + "\nfoo [[bar]]", "{|\n" + body + "\n|}"):
                     check_one(text, scan, R, seen, crumb)
                     R.count("long_token_inputs")
+    elif desc["kind"] == "uniq":
+        # the parser's own sequence: opaque regions replaced by markers, then tokenize(txt, uniquifier=u);
+        # the tokens must tile the marker-bearing text (a tag that is not whitelisted is demoted to text)
+        from mwlib.utils import uniq
+        n, sh = desc["n"], desc["shard"]
+        for d in range(1, desc["depth"] + 1):
+            for i, tup in enumerate(itertools.product(UNIQ_LEX, repeat=d)):
+                if i % n != sh:
+                    continue
+                text = "".join(tup)
+                u = uniq.Uniquifier()
+                try:
+                    txt = u.replace_tags(text)
+                    toks = utoken.tokenize(txt, uniquifier=u)
+                except Exception:
+                    R.count("compat_tokenize_raised_(C01_matter)")
+                    continue
+                r = tiling_error(txt, [(t.type, t.start, t.len) for t in toks])
+                R.count("uniq_tiling_checks")
+                R.evaluations += 1
+                if "\x7f" in txt:
+                    R.hashes.add(hash(("uniq", text)))
+                if isinstance(r, str):
+                    R.violation("uniq-tiling:" + _kind(r), "tokenize(replace_tags(text), uniquifier): " + r,
+                                {"text": text, "uniq": True}, detail=repr(toks[:40]))
     elif desc["kind"] == "enum":
         n, sh = desc["n"], desc["shard"]
         for d in range(1, desc["depth"] + 1):
@@ -204,6 +232,13 @@ def replay(case):
     text = case.get("text")
     if text is None:
         text = case.get("last_case") or ""
+    if case.get("uniq"):
+        from mwlib.utils import uniq
+        u = uniq.Uniquifier()
+        txt = u.replace_tags(text)
+        toks = [(t.type, t.start, t.len) for t in utoken.tokenize(txt, uniquifier=u)]
+        r = tiling_error(txt, toks)
+        return [("uniq-tiling:" + _kind(r), r, repr(toks[:80]))] if isinstance(r, str) else []
     if case.get("compat"):
         toks = [(t.type, t.start, t.len) for t in utoken.tokenize(text)]
         r = tiling_error(text, toks)
